@@ -201,6 +201,14 @@ def c10(prop, tier, seed):
         # the K harnesses on the same functions stand (bounded sizes); the unbounded V units are undecided
         obs, infos = [Ob("%s.V.builders" % prop, "V", "undecided", str(u)[:600])], []
     r["obs"] = obs + r["obs"]; r["infos"] = infos + r["infos"]
+    und = [o for o in r["obs"] if o.status == "undecided"]
+    if und and not any(o.status == "refuted" for o in r["obs"]):
+        # e.g. a builder rewritten with constructs neither tool finishes on: bounded native stand-in on the real functions
+        try:
+            o2, i2 = bounded_standin(prop, "; ".join("%s: %s" % (o.name, o.detail[:100]) for o in und), [("builders.native", "replay_c10", ["cw12"])])
+            r["obs"].extend(o2); r["infos"].extend(i2)
+        except Undecided:
+            pass
     r["assumptions"] = V_ASSUMPTIONS["builders"] + r["assumptions"]
     r["explanation"] = "C10 (V, unbounded): Verus proves on the extracted impl blocks of ExecutorBuilder (new / with_funds / funds / contract / ready new / build) and InstantiateBuilder (new / with_label / with_admin / with_funds / build / build2) that every output field equals the corresponding input for ALL addresses, funds vectors, labels, admins, bodies and salts, the others unchanged, label empty when unset, build2 = build plus the salt. " + r["explanation"]
     return r
